@@ -61,6 +61,7 @@ func c15Values(cast *vh.Cast) []string {
 		`"` + cast.ByName["C1"].NodeID + `"`, `"` + cast.ByName["W1"].Wallet + `"`, `"` + sig65 + `"`,
 		`"AA=="`, `"` + strings.Repeat("A", 84) + `"`, `"` + strings.Repeat("A", 88) + `"`, `"` + strings.Repeat("zz", 65) + `"`,
 		`[]`, `{}`, `{"num":"x","kind":5,"peers_info":"no","node_info":7,"node_uri":{},"block_number":-1}`,
+		`"` + strings.Repeat("p", 2100) + `"`, `[` + strings.Repeat(`{"a":1},`, 300) + `{}]`,
 		`[[[[[[[[[[]]]]]]]]]]`, `{"peers_info":[null,{"id":5},{"enode":"enode://short"}],"block_number":18446744073709551616}`,
 	}
 }
@@ -678,6 +679,90 @@ func (rwcT) Write(p []byte) (int, error) { return len(p), nil }
 func (rwcT) Close() error                { return nil }
 func rwcOf(b []byte) rwcT                { return rwcT{bytes.NewReader(b)} }
 
+// hosts that answer the pool's own calls with errors (or not at all): whatever number of them
+// fails, the client's request gets a well-formed reply and the pool keeps serving - the reply is
+// built from the error values those failures produce
+func c15FailingHosts() vh.Unit {
+	return vh.Unit{Name: "failing-hosts", Run: func(u *vh.U) {
+		cast := vh.StdCast()
+		hosts := []string{"H1", "H2", "H3"}
+		for nHosts := 1; nHosts <= 3; nHosts++ {
+			for modes := 0; modes < 27; modes++ { // per host: ack / error / silent
+				for _, k := range []int{1, 3} {
+					for _, legacy := range []bool{false, true} {
+						var ms []int
+						m := modes
+						for i := 0; i < nHosts; i++ {
+							ms = append(ms, m%3)
+							m /= 3
+						}
+						if m != 0 {
+							continue
+						}
+						var resp *jsonrpc2.Message
+						var alive bool
+						s := vsched.Run(vsched.Options{MaxTime: time.Hour, Drain: true}, func() {
+							pw := vh.NewPoolWorld(vh.PoolConfig{Driver: vh.Memory, NoManager: true})
+							for i := 0; i < nHosts; i++ {
+								vh.PoolEvent(pw, cast, "conn "+hosts[i])
+								pw.Host(cast.ByName[hosts[i]].Name).Mode = ms[i]
+							}
+							vh.PoolEvent(pw, cast, "conn C1")
+							srv := &jsonrpc2.Server{}
+							if err := vh.RegisterProd(srv, pw); err != nil {
+								panic(err)
+							}
+							c := vh.NewCall("vipnode_peer", cast.ByName["C1"], vsched.Now().UnixNano()+77, pool.PeerRequest{Num: k})
+							if legacy {
+								c = vh.NewCall("vipnode_client", cast.ByName["C1"], vsched.Now().UnixNano()+77, pool.ClientRequest{Kind: "geth", NumHosts: k})
+							}
+							msg, err := vh.ParseMessage(vh.RequestText(c, 5))
+							if err != nil {
+								panic(err)
+							}
+							resp = srv.Handle(vh.CtxWith(pw.Host("client-conn").Service()), msg)
+							alive = vh.Ping(srv)
+						})
+						u.R.Evaluations++
+						u.R.States++
+						u.R.Transitions += int64(len(s.Trace))
+						u.R.Traces++
+						desc := fmt.Sprintf("%d hosts answering the whitelist call with %v (0 ack, 1 error, 2 silence), request for %d hosts (legacy=%v)", nHosts, ms, k, legacy)
+						u.Observe(fmt.Sprintf("%v %d %v err=%v", ms, k, legacy, resp != nil && resp.Response != nil && resp.Error != nil))
+						switch {
+						case s.Panic != nil:
+							u.Violate("failing-hosts/panic", fmt.Sprintf("%s: %v", desc, s.Panic), nil)
+							return
+						case s.Deadlock || s.Horizon:
+							u.Violate("failing-hosts/request-never-answered", desc, nil)
+							return
+						case vh.ReplyProblem("5", resp) != "":
+							u.Violate("failing-hosts/malformed-reply", fmt.Sprintf("%s: %s", desc, vh.ReplyProblem("5", resp)), nil)
+							return
+						case !alive:
+							u.Violate("failing-hosts/pool-stopped-serving", desc, nil)
+							return
+						}
+						if len(u.R.Samples) < 2 && !allAckOf(ms) {
+							u.Sample(desc + " -> " + vh.ShortJSON(resp))
+						}
+						// (control: hosts that all acknowledge are handed out)
+						allAck := true
+						for _, m := range ms {
+							allAck = allAck && m == vh.HostAck
+						}
+						if allAck && (resp.Error != nil || !strings.Contains(string(resp.Result), cast.ByName["H1"].NodeID)) {
+							u.Violate("failing-hosts/acknowledging-hosts-not-returned", fmt.Sprintf("%s: %s", desc, vh.ShortJSON(resp)), nil)
+							return
+						}
+					}
+				}
+			}
+		}
+		u.Sample("1-3 hosts x every ack/error/silence assignment x requests for 1 and 3 hosts, both request formats, through the production registration")
+	}}
+}
+
 func init() {
 	vh.Register(&vh.Check{
 		ID: "C15", Level: "model_checking",
@@ -698,7 +783,7 @@ func init() {
 					us = append(us, c15SignedIn(vh.Memory, true, s, 3))
 				}
 			}
-			us = append(us, c15Envelopes(), c15Wire())
+			us = append(us, c15Envelopes(), c15Wire(), c15FailingHosts())
 			// a connection that drops while a request of the node registered on it is being served
 			// must not wedge the pool (all interleavings; a deadlock is a violation)
 			wb := 2
@@ -718,4 +803,13 @@ func init() {
 			return us
 		},
 	})
+}
+
+func allAckOf(ms []int) bool {
+	for _, m := range ms {
+		if m != vh.HostAck {
+			return false
+		}
+	}
+	return true
 }
